@@ -447,21 +447,39 @@ pub proof fn lemma_three_pieces<T>(y: Seq<T>, w: Seq<T>, q: int, a: int, b: int)
     assert(w =~= w.subrange(0, a) + w.subrange(a, b) + w.subrange(b, w.len() as int));
 }
 
-/// leading context and new core of hunk i in the result
-pub proof fn lemma_new_view_front(x: Seq<Seq<u8>>, hs: Seq<Hunk<&[u8]>>, d: PatchDirection, i: int)
+/// leading context and new core of hunk i in the result - split by conclusion (each query stays small; the combined
+/// lemma was context-sensitive: 99M -> 197M resource units after an unrelated edit of this file)
+pub proof fn lemma_nvf_arith(x: Seq<Seq<u8>>, hs: Seq<Hunk<&[u8]>>, d: PatchDirection, i: int)
     requires diff_script(x, hs, d), sizes_ok(x, hs), header_consistent(x, hs, d), 0 <= i < hs.len()
     ensures
-        ({
-            let y = diff_result(x, hs, d);
-            let q = new_start(hs[i], d);
-            let pc = hs[i].prefix_context as int;
-            let sc = hs[i].suffix_context as int;
-            let nw = deep(new_side(hs[i], d));
-            &&& 0 <= q && pc + sc <= nw.len()
-            &&& q + nw.len() - sc == sp_out(x, hs, d, produced_reports(x, hs, d), i + 1).len()
-            &&& y.subrange(q, q + pc) == nw.subrange(0, pc)
-            &&& y.subrange(q + pc, q + nw.len() - sc) == nw.subrange(pc, nw.len() - sc)
-        }),
+        0 <= new_start(hs[i], d),
+        hs[i].prefix_context + hs[i].suffix_context <= new_side(hs[i], d).len(),
+        new_start(hs[i], d) + new_side(hs[i], d).len() - hs[i].suffix_context == sp_out(x, hs, d, produced_reports(x, hs, d), i + 1).len(),
+        new_start(hs[i], d) + new_side(hs[i], d).len() - hs[i].suffix_context <= diff_result(x, hs, d).len(),
+{
+    let reps = produced_reports(x, hs, d);
+    let y = diff_result(x, hs, d);
+    let h = hs[i];
+    let q = new_start(h, d);
+    let p = old_start(h, d);
+    let pc = h.prefix_context as int;
+    let nw = deep(new_side(h, d));
+    let ol = deep(old_side(h, d));
+    lemma_diff_applied_state(x, hs, d);
+    lemma_produced_norm(x, hs, d, i);
+    lemma_applied_state_at(x, hs, d, reps, i);
+    lemma_new_start_at(x, hs, d, i);
+    lemma_diff_core_at(x, hs, d, i);
+    lemma_diff_script_at(x, hs, d, i);
+    lemma_hunk_contexts(h, d);
+    lemma_patched_segments(x, hs, d, reps, i);
+}
+
+pub proof fn lemma_nvf_prefix(x: Seq<Seq<u8>>, hs: Seq<Hunk<&[u8]>>, d: PatchDirection, i: int)
+    requires diff_script(x, hs, d), sizes_ok(x, hs), header_consistent(x, hs, d), 0 <= i < hs.len()
+    ensures
+        diff_result(x, hs, d).subrange(new_start(hs[i], d), new_start(hs[i], d) + hs[i].prefix_context)
+            == deep(new_side(hs[i], d)).subrange(0, hs[i].prefix_context as int),
 {
     let reps = produced_reports(x, hs, d);
     let y = diff_result(x, hs, d);
@@ -488,6 +506,51 @@ pub proof fn lemma_new_view_front(x: Seq<Seq<u8>>, hs: Seq<Hunk<&[u8]>>, d: Patc
     assert(x.subrange(p, p + ol.len()).subrange(0, pc) =~= x.subrange(p, p + pc));
 }
 
+pub proof fn lemma_nvf_core(x: Seq<Seq<u8>>, hs: Seq<Hunk<&[u8]>>, d: PatchDirection, i: int)
+    requires diff_script(x, hs, d), sizes_ok(x, hs), header_consistent(x, hs, d), 0 <= i < hs.len()
+    ensures
+        diff_result(x, hs, d).subrange(new_start(hs[i], d) + hs[i].prefix_context,
+                                       new_start(hs[i], d) + new_side(hs[i], d).len() - hs[i].suffix_context)
+            == deep(new_side(hs[i], d)).subrange(hs[i].prefix_context as int, new_side(hs[i], d).len() - hs[i].suffix_context),
+{
+    let reps = produced_reports(x, hs, d);
+    let y = diff_result(x, hs, d);
+    let h = hs[i];
+    let q = new_start(h, d);
+    let p = old_start(h, d);
+    let pc = h.prefix_context as int;
+    let nw = deep(new_side(h, d));
+    let ol = deep(old_side(h, d));
+    lemma_diff_applied_state(x, hs, d);
+    lemma_produced_norm(x, hs, d, i);
+    lemma_applied_state_at(x, hs, d, reps, i);
+    lemma_new_start_at(x, hs, d, i);
+    lemma_diff_core_at(x, hs, d, i);
+    lemma_diff_script_at(x, hs, d, i);
+    lemma_hunk_contexts(h, d);
+    lemma_patched_segments(x, hs, d, reps, i);
+}
+
+pub proof fn lemma_new_view_front(x: Seq<Seq<u8>>, hs: Seq<Hunk<&[u8]>>, d: PatchDirection, i: int)
+    requires diff_script(x, hs, d), sizes_ok(x, hs), header_consistent(x, hs, d), 0 <= i < hs.len()
+    ensures
+        ({
+            let y = diff_result(x, hs, d);
+            let q = new_start(hs[i], d);
+            let pc = hs[i].prefix_context as int;
+            let sc = hs[i].suffix_context as int;
+            let nw = deep(new_side(hs[i], d));
+            &&& 0 <= q && pc + sc <= nw.len()
+            &&& q + nw.len() - sc == sp_out(x, hs, d, produced_reports(x, hs, d), i + 1).len()
+            &&& y.subrange(q, q + pc) == nw.subrange(0, pc)
+            &&& y.subrange(q + pc, q + nw.len() - sc) == nw.subrange(pc, nw.len() - sc)
+        }),
+{
+    lemma_nvf_arith(x, hs, d, i);
+    lemma_nvf_prefix(x, hs, d, i);
+    lemma_nvf_core(x, hs, d, i);
+}
+
 /// the whole new side of hunk i (context included) stands in the result at its stated "+" line
 pub proof fn lemma_new_view_in_result(x: Seq<Seq<u8>>, hs: Seq<Hunk<&[u8]>>, d: PatchDirection, i: int)
     requires diff_script(x, hs, d), sizes_ok(x, hs), header_consistent(x, hs, d), 0 <= i < hs.len()
@@ -510,6 +573,72 @@ pub proof fn lemma_new_view_in_result(x: Seq<Seq<u8>>, hs: Seq<Hunk<&[u8]>>, d: 
     lemma_three_pieces(y, nw, q, pc, nw.len() - sc);
 }
 
+/// what lemma_after_core concludes, as a predicate (so that the two case lemmas and the dispatcher share one statement)
+pub open spec fn after_core_ok(x: Seq<Seq<u8>>, hs: Seq<Hunk<&[u8]>>, d: PatchDirection, i: int) -> bool {
+    let reps = produced_reports(x, hs, d);
+    let y = diff_result(x, hs, d);
+    let o1 = sp_out(x, hs, d, reps, i + 1).len() as int;
+    let sc = hs[i].suffix_context as int;
+    let ce = old_start(hs[i], d) + old_side(hs[i], d).len() - sc;
+    &&& 0 <= o1 && o1 + sc <= y.len()
+    &&& 0 <= ce && ce + sc <= x.len()
+    &&& y.subrange(o1, o1 + sc) == x.subrange(ce, ce + sc)
+}
+
+/// case: hunk i is followed by another hunk (the untouched segment up to the next core contains the trailing context)
+pub proof fn lemma_after_core_mid(x: Seq<Seq<u8>>, hs: Seq<Hunk<&[u8]>>, d: PatchDirection, i: int)
+    requires diff_script(x, hs, d), sizes_ok(x, hs), header_consistent(x, hs, d), 0 <= i < hs.len() - 1
+    ensures after_core_ok(x, hs, d, i)
+{
+    let reps = produced_reports(x, hs, d);
+    let y = diff_result(x, hs, d);
+    let sc = hs[i].suffix_context as int;
+    lemma_diff_applied_state(x, hs, d);
+    lemma_diff_core_at(x, hs, d, i);
+    lemma_diff_script_at(x, hs, d, i);
+    lemma_produced_norm(x, hs, d, i);
+    lemma_view_fuzz0(hs[i], d);
+    lemma_applied_state_at(x, hs, d, reps, i);
+    let o1 = sp_out(x, hs, d, reps, i + 1).len() as int;
+    let ce = old_start(hs[i], d) + old_side(hs[i], d).len() - sc;
+    assert(sp_pos(hs, d, reps, i + 1) == ce);
+    lemma_applied_state_at(x, hs, d, reps, i + 1);
+    lemma_produced_norm(x, hs, d, i + 1);
+    lemma_patched_segments(x, hs, d, reps, i + 1);
+    lemma_diff_core_at(x, hs, d, i + 1);
+    lemma_diff_script_at(x, hs, d, i + 1);
+    let cs1 = rep_core_start(hs[i + 1], reps[i + 1]);
+    assert(ce + sc <= old_start(hs[i + 1], d)) by { reveal(diff_script); let _ = hs[i]; }
+    assert(y.subrange(o1, o1 + (cs1 - ce)).subrange(0, sc) =~= y.subrange(o1, o1 + sc));
+    assert(x.subrange(ce, cs1).subrange(0, sc) =~= x.subrange(ce, ce + sc));
+}
+
+/// case: hunk i is the last one (the result ends with x's lines after its core)
+pub proof fn lemma_after_core_last(x: Seq<Seq<u8>>, hs: Seq<Hunk<&[u8]>>, d: PatchDirection, i: int)
+    requires diff_script(x, hs, d), sizes_ok(x, hs), header_consistent(x, hs, d), 0 <= i, i == hs.len() - 1
+    ensures after_core_ok(x, hs, d, i)
+{
+    let reps = produced_reports(x, hs, d);
+    let y = diff_result(x, hs, d);
+    let n = hs.len() as int;
+    let sc = hs[i].suffix_context as int;
+    lemma_diff_applied_state(x, hs, d);
+    lemma_diff_core_at(x, hs, d, i);
+    lemma_diff_script_at(x, hs, d, i);
+    lemma_produced_norm(x, hs, d, i);
+    lemma_view_fuzz0(hs[i], d);
+    lemma_applied_state_at(x, hs, d, reps, i);
+    let o1 = sp_out(x, hs, d, reps, i + 1).len() as int;
+    let ce = old_start(hs[i], d) + old_side(hs[i], d).len() - sc;
+    assert(sp_pos(hs, d, reps, i + 1) == ce);
+    lemma_applied_pos(x, hs, d, reps, n);
+    let on = sp_out(x, hs, d, reps, n);
+    let tail = x.subrange(ce, x.len() as int);
+    assert(y == on + tail);
+    assert(y.subrange(o1, o1 + sc) =~= tail.subrange(0, sc));
+    assert(tail.subrange(0, sc) =~= x.subrange(ce, ce + sc));
+}
+
 /// right after the new core of hunk i the result continues with x's lines after the old core, at least for the
 /// trailing context of the hunk
 pub proof fn lemma_after_core(x: Seq<Seq<u8>>, hs: Seq<Hunk<&[u8]>>, d: PatchDirection, i: int)
@@ -526,38 +655,7 @@ pub proof fn lemma_after_core(x: Seq<Seq<u8>>, hs: Seq<Hunk<&[u8]>>, d: PatchDir
             &&& y.subrange(o1, o1 + sc) == x.subrange(ce, ce + sc)
         }),
 {
-    let reps = produced_reports(x, hs, d);
-    let y = diff_result(x, hs, d);
-    let n = hs.len() as int;
-    let sc = hs[i].suffix_context as int;
-    lemma_diff_applied_state(x, hs, d);
-    lemma_diff_core_at(x, hs, d, i);
-    lemma_diff_script_at(x, hs, d, i);
-    lemma_produced_norm(x, hs, d, i);
-    lemma_view_fuzz0(hs[i], d);
-    lemma_applied_state_at(x, hs, d, reps, i);
-    lemma_patched_segments(x, hs, d, reps, i);
-    let o1 = sp_out(x, hs, d, reps, i + 1).len() as int;
-    let ce = old_start(hs[i], d) + old_side(hs[i], d).len() - sc;
-    assert(sp_pos(hs, d, reps, i + 1) == ce);
-    if i + 1 < n {
-        lemma_applied_state_at(x, hs, d, reps, i + 1);
-        lemma_produced_norm(x, hs, d, i + 1);
-        lemma_patched_segments(x, hs, d, reps, i + 1);
-        lemma_diff_core_at(x, hs, d, i + 1);
-        lemma_diff_script_at(x, hs, d, i + 1);
-        let cs1 = rep_core_start(hs[i + 1], reps[i + 1]);
-        assert(ce + sc <= old_start(hs[i + 1], d)) by { reveal(diff_script); let _ = hs[i]; }
-        assert(y.subrange(o1, o1 + (cs1 - ce)).subrange(0, sc) =~= y.subrange(o1, o1 + sc));
-        assert(x.subrange(ce, cs1).subrange(0, sc) =~= x.subrange(ce, ce + sc));
-    } else {
-        lemma_applied_pos(x, hs, d, reps, n);
-        let on = sp_out(x, hs, d, reps, n);
-        let tail = x.subrange(ce, x.len() as int);
-        assert(y == on + tail);
-        assert(y.subrange(o1, o1 + sc) =~= tail.subrange(0, sc));
-        assert(tail.subrange(0, sc) =~= x.subrange(ce, ce + sc));
-    }
+    if i + 1 < hs.len() { lemma_after_core_mid(x, hs, d, i); } else { lemma_after_core_last(x, hs, d, i); }
 }
 
 /// mirrored end-of-file anchoring (context is symmetric between the two files of a diff): a hunk with less trailing
